@@ -5,8 +5,8 @@
    ELFFile._read_dwarf_section) over the record layouts, recipe dicts, calc functions and
    machine/flavour dispatch REGENERATED from the live code (Gen/ElfLayouts.v, Gen/C08Recipes.v).
    Spec: Spec/C08Spec.v (gABI entries, RELR proposal, psABI table, reference application). *)
-From PV Require Import Base.Fmt Base.Outcome Spec.ElfGabi Spec.C08Spec Gen.ElfLayouts Gen.C08Recipes
-     Model.C08Reloc Proofs.C08Proofs.
+From PV Require Import Base.Fmt Base.Outcome Spec.ElfGabi Spec.C08Spec Spec.C08Hist Gen.ElfLayouts Gen.C08Recipes
+     Model.C08Reloc Model.C08Hist Proofs.C08Proofs Proofs.C08Hist.
 Open Scope Z_scope.
 Open Scope list_scope.
 
@@ -292,6 +292,63 @@ Theorem C08_address_offset_exact : forall l1 off vaddr filesz l2 addr,
 Proof. exact address_offset_exact. Qed.
 Print Assumptions C08_address_offset_exact.
 
+(* ---------------- table OBJECTS: every answer is independent of what was asked before *)
+(* The RELR object carries the memo `_cached_relocations`; REL/RELA objects carry nothing.  A
+   history is any finite list of: start a walk, resume a walk for one item, abandon a walk,
+   num_relocations(), get_relocation(n), a complete walk (Spec/C08Hist.v [hop]). *)
+
+(* the lazy generator body, run to its end, is the eager model the RELR theorems above speak about *)
+Theorem C08_relr_lazy_walk_refines : forall le is64 img off size,
+  relr_iter_relocations le is64 img off size (wordsize is64) = collapse (relr_source le is64 img off size).
+Proof. exact relr_source_collapse. Qed.
+Print Assumptions C08_relr_lazy_walk_refines.
+
+(* INVARIANT, for every walk source and every history (no side condition): the memo is None or
+   holds exactly what a complete walk yields; in particular never a prefix left by an abandoned walk *)
+Theorem C08_relr_memo_invariant : forall (src : lazy Z) (h : list hop),
+  match r_cache (fold_left (fun s o => fst (relr_hstep src s o)) h relr_new) with
+  | None => True
+  | Some l => collapse src = Ok l
+  end.
+Proof. exact relr_memo_invariant. Qed.
+Print Assumptions C08_relr_memo_invariant.
+
+(* a table-level question (count, n-th entry, complete walk) put after ANY history whatsoever is
+   answered from the gABI reading of the words alone *)
+Theorem C08_relr_answers_history_free : forall le is64 ws pre tail (h : list hop) (o : hop),
+  relr_words_wf is64 ws = true ->
+  table_op o = true -> hop_ok false 0 o = true ->
+  let src := relr_source le is64 (pre ++ encode_relr le is64 ws ++ tail) (zlen pre)
+                         (zlen (encode_relr le is64 ws)) in
+  snd (relr_hstep src (fold_left (fun s o => fst (relr_hstep src s o)) h relr_new) o)
+  = snd (spec_step (relr_spec is64 ws) [] o).
+Proof. exact relr_answers_history_free. Qed.
+Print Assumptions C08_relr_answers_history_free.
+
+(* whole histories, suspended and abandoned generators included: the list of answers of the
+   object = the reference answers computed from the expansion *)
+Theorem C08_relr_history_exact : forall le is64 ws pre tail (h : list hop) l,
+  relr_words_wf is64 ws = true ->
+  relr_spec is64 ws = Ok l ->
+  forallb (hop_ok false 0) h = true ->
+  relr_hist le is64 (pre ++ encode_relr le is64 ws ++ tail) (zlen pre) (zlen (encode_relr le is64 ws))
+            (wordsize is64) h
+  = Ok (spec_hist (Ok l) h).
+Proof. exact relr_history_exact. Qed.
+Print Assumptions C08_relr_history_exact.
+
+(* REL / RELA / MIPS64 tables: the same histories are transparent *)
+Theorem C08_rel_history_exact : forall le is64 mips rela es pre tail slack,
+  forallb (rent_wf is64 (is64 && mips) rela) es = true ->
+  0 <= slack < rel_entsize is64 (is64 && mips) rela ->
+  forall h : list hop,
+  forallb (hop_ok true (zlen es)) h = true ->
+  rel_hist (rel_struct le is64 mips rela) (pre ++ encode_table le is64 (is64 && mips) rela es ++ tail)
+           (zlen pre) (zlen (encode_table le is64 (is64 && mips) rela es) + slack) h
+  = spec_hist (Ok (map (rent_view is64 (is64 && mips) rela) es)) h.
+Proof. exact rel_history_exact. Qed.
+Print Assumptions C08_rel_history_exact.
+
 (* ---------------- non-vacuity: the hypotheses are met by concrete, non-trivial inputs *)
 (* a RELA entry with a negative addend and a full-width symbol index; a MIPS64 entry with all sub-fields *)
 Example C08_ex_entries :
@@ -322,4 +379,18 @@ Example C08_ex_apply :
   spec_apply_all true true EM_X86_64 true symvals s es
   = Ok [1; 2; 3; 4; 0xec; 0xff; 0xff; 0xff; 0x10; 0; 0; 0; 0; 0; 0; 0] /\
   spec_apply_all true true EM_386 true symvals s es = Err EReloc.
+Proof. repeat split; vm_compute; reflexivity. Qed.
+
+(* a RELR object: a walk abandoned after one item, then a complete walk, the count, an entry, the
+   abandoned generator again (finished), a second walk interleaved with the memo being filled *)
+Example C08_ex_history :
+  let ws := [0x1000; 0x8000000000000003] in
+  let h := [HStart; HNext 0; HClose 0; HIter; HNum; HGet 2; HNext 0; HStart; HNext 1; HNum; HNext 1] in
+  forallb (hop_ok false 0) h = true /\
+  relr_hist true true ([7; 7; 7] ++ encode_relr true true ws ++ [9]) 3 16 8 h
+  = Ok [AUnit; AItem 0x1000; AUnit; AList [0x1000; 0x1008; 0x11f8]; AInt 3; AItem 0x11f8; AStop;
+        AUnit; AItem 0x1000; AInt 3; AItem 0x1008] /\
+  spec_hist (relr_spec true ws) h
+  = [AUnit; AItem 0x1000; AUnit; AList [0x1000; 0x1008; 0x11f8]; AInt 3; AItem 0x11f8; AStop;
+     AUnit; AItem 0x1000; AInt 3; AItem 0x1008].
 Proof. repeat split; vm_compute; reflexivity. Qed.
